@@ -766,7 +766,19 @@ fn analyze_match_tuple_pattern(
                 // (`=[Nil, a]` failed, so the list is a `Cons`, and its TAIL would be a `Cons`
                 // too: `=[Cons[h, Nil], a]` could never match). Point the back-references at the
                 // un-narrowed field type instead.
-                field_type_id = unroll_back_references(field_type_id, full_field_type_id, program);
+                //
+                // Only for a sub-pattern that looks INSIDE the field. A binder (or a placeholder)
+                // hands the narrowed type on as it is: a union that was flattened into the field
+                // type (`'list | []`) shares the back-reference with the recursive union, so the
+                // unrolled spelling `Cons['t, (Nil | Cons['t, ^] | [])]` would no longer be
+                // accepted where a `'list` is expected.
+                if !matches!(
+                    field.pattern,
+                    ast::Match::Identifier(..) | ast::Match::Placeholder | ast::Match::As(..)
+                ) {
+                    field_type_id =
+                        unroll_back_references(field_type_id, full_field_type_id, program);
+                }
             }
 
             // Earlier branches may have used this field up (`=[A, a]`, then `=[_, a]`: nothing is
